@@ -37,6 +37,12 @@ Proof.
   destruct (c_public c || cr_ok cr)%bool; cbn; auto.
 Qed.
 
+Lemma jwt_bearer_client_readonly w cr : readonly (jwt_bearer_client w cr).
+Proof.
+  unfold jwt_bearer_client. apply readonly_bind; [apply authenticated_readonly|]. intros [c|]; cbn; auto.
+  destruct (_ && _)%bool; cbn; auto.
+Qed.
+
 (* who `authenticated` lets through *)
 Lemma find_client_id i l c : find_client i l = Some c -> c_id c = i.
 Proof. unfold find_client. intros H. apply find_some in H as [_ H]. apply N.eqb_eq in H. exact H. Qed.
@@ -65,6 +71,26 @@ Lemma run_authenticated {B} w cr (k : option client -> prog B) st :
 Proof.
   rewrite run_seq_bind. pose proof (readonly_run _ st (authenticated_readonly w cr)) as E.
   destruct (run_seq (authenticated w cr) st) as [st1 oc]. cbn in *. subst. reflexivity.
+Qed.
+Lemma run_jwt_bearer_client_k {B} w cr (k : option client -> prog B) st :
+  run_seq (bind (jwt_bearer_client w cr) k) st = run_seq (k (snd (run_seq (jwt_bearer_client w cr) st))) st.
+Proof.
+  rewrite run_seq_bind. pose proof (readonly_run _ st (jwt_bearer_client_readonly w cr)) as E.
+  destruct (run_seq (jwt_bearer_client w cr) st) as [st1 oc]. cbn in *. subst. reflexivity.
+Qed.
+(* the client a jwt-bearer request is served for: the authenticated one, or the anonymous client - the
+   latter only for a request that names nobody, where client authentication is not required *)
+Lemma jwt_bearer_client_spec w cr st c :
+  snd (run_seq (jwt_bearer_client w cr) st) = Some c ->
+  snd (run_seq (authenticated w cr) st) = Some c \/
+  (snd (run_seq (authenticated w cr) st) = None /\ c = anonymous_client (w_cfg w) /\
+   is_nil (cr_id cr) = true /\ cf_jwt_bearer_authn_required (w_cfg w) = false).
+Proof.
+  unfold jwt_bearer_client. rewrite run_authenticated.
+  destruct (snd (run_seq (authenticated w cr) st)) as [c'|]; cbn; [intros H; left; exact H|].
+  destruct (is_nil (cr_id cr)) eqn:E1; cbn; [|discriminate].
+  destruct (cf_jwt_bearer_authn_required (w_cfg w)) eqn:E2; cbn; [discriminate|].
+  intros H; inversion H; subst. right. auto.
 Qed.
 Lemma run_get_client {B} w i (k : option client -> prog B) st :
   run_seq (bind (get_client w i) k) st = run_seq (k (snd (run_seq (get_client w i) st))) st.
